@@ -350,3 +350,70 @@ func c17r13(rc *core.RC) {
 		rc.Unknown("encoder/member-nodes", token.NoPos, "found %d composite literals of StructFieldCode (confirmed: 2)", nlit)
 	}
 }
+
+// ---- C17.R14 the walker over the rest of an unmatched key never looks at the byte it is entered on ----
+
+// decodeKeyNotFound is entered from the bitmap key decoders with the cursor on a byte that is done with: a plain byte
+// that matched no field, or the letter behind a backslash (the decoded character matched no field). Looking at that
+// byte again takes the `"` of `\"` for the end of the key and the second `\` of `\\` for a new escape. Obligation:
+// in decodeKeyNotFound the first statement of the loop is the advance of the cursor parameter, in front of the
+// dispatch on the byte under it.
+func c17r14(rc *core.RC) {
+	p := rc.P
+	n := 0
+	for _, name := range []string{"decodeKeyNotFound"} {
+		fd := p.Func("decoder", name)
+		key := "decoder." + name + "/entered-on-a-byte-that-is-done-with"
+		if fd == nil || fd.Body == nil {
+			rc.Unknown(key, token.NoPos, "function not found")
+			continue
+		}
+		n++
+		rc.Touch(p.FuncName(fd))
+		info := p.Info(fd)
+		var cur types.Object
+		for _, fl := range fd.Type.Params.List {
+			for _, nm := range fl.Names {
+				if o := info.Defs[nm]; o != nil {
+					if b, isB := o.Type().Underlying().(*types.Basic); isB && b.Kind() == types.Int64 {
+						cur = o
+					}
+				}
+			}
+		}
+		var loop *ast.ForStmt
+		for _, st := range fd.Body.List {
+			if f, ok := st.(*ast.ForStmt); ok && loop == nil {
+				loop = f
+			}
+		}
+		if loop == nil || cur == nil || len(loop.Body.List) == 0 {
+			rc.Unknown(key, fd.Pos(), "no loop over the key found")
+			continue
+		}
+		// the first read of the byte under the cursor and the first advance, in statement order
+		firstRead, firstInc := token.NoPos, token.NoPos
+		ast.Inspect(loop.Body, func(m ast.Node) bool {
+			switch x := m.(type) {
+			case *ast.IncDecStmt:
+				if core.ObjOf(info, x.X) == cur && x.Tok == token.INC && firstInc == token.NoPos {
+					firstInc = x.Pos()
+				}
+			case *ast.CallExpr:
+				if core.CalleeName(info, x) == "decoder.char" && len(x.Args) == 2 && core.ObjOf(info, x.Args[1]) == cur && firstRead == token.NoPos {
+					firstRead = x.Pos()
+				}
+			}
+			return true
+		})
+		inc0, isInc := loop.Body.List[0].(*ast.IncDecStmt)
+		if isInc && core.ObjOf(info, inc0.X) == cur && firstRead != token.NoPos && firstInc < firstRead {
+			rc.OK(key, loop.Pos(), "the cursor is advanced before the first byte is looked at")
+		} else {
+			rc.Bad(key, loop.Pos(), "the loop looks at the byte under the cursor it was entered with: the callers enter it on the letter behind a backslash, so the quote of \\\" ends the key and the backslash of \\\\ starts another escape; a valid document with such a key that selects no field is refused")
+		}
+	}
+	if n < 1 {
+		rc.Unknown("decoder/decodeKeyNotFound", token.NoPos, "function not found")
+	}
+}
